@@ -33,12 +33,12 @@ Print Assumptions C14_load_terminates.
 
 (* the pinned loader on a file that includes itself: no amount of fuel suffices *)
 Theorem C14_cycle_diverges_pinned : forall fuel, load_pinned fuel fs_selfinclude [[97]] = LOutOfFuel.
-Proof. intros fuel. exact (pinned_diverges fs_selfinclude _ selfinclude_closed fuel [[97]] eq_refl). Qed.
+Proof. exact selfinclude_diverges. Qed.
 Print Assumptions C14_cycle_diverges_pinned.
 
 (* two files that include each other (through a subdirectory and "..") *)
 Theorem C14_mutual_cycle_diverges_pinned : forall fuel, load_pinned fuel fs_mutual [[97]] = LOutOfFuel.
-Proof. intros fuel. exact (pinned_diverges fs_mutual _ mutual_closed fuel [[97]] (or_introl eq_refl)). Qed.
+Proof. exact mutual_diverges. Qed.
 Print Assumptions C14_mutual_cycle_diverges_pinned.
 
 (* in general: from any file of a set of parseable files each of which includes a file of the
@@ -177,9 +177,7 @@ Print Assumptions C14_pinned_panics_refuted_year_zero.
 Theorem C14_no_panic_repaired :
   forall cfg lenient ds m,
     balance_table_safe cfg ds <> CPanic m /\ check_cmd_safe lenient ds <> CPanic m /\ print_cmd_safe lenient ds <> CPanic m.
-Proof.
-  intros cfg lenient ds m. split; [apply balance_table_safe_np|]. split; [apply check_cmd_safe_np|apply print_cmd_safe_np].
-Qed.
+Proof. exact repaired_np_all. Qed.
 Print Assumptions C14_no_panic_repaired.
 
 Theorem C14_no_panic_repaired_fs :
@@ -219,7 +217,7 @@ Theorem C14_error_empty_stdout :
     (print_cmd lenient ds = CErr k d -> stdout_of (print_cmd lenient ds) = []) /\
     (balance_csv_safe cfg ds = CErr k d -> stdout_of (balance_csv_safe cfg ds) = []) /\
     (print_cmd_safe lenient ds = CErr k d -> stdout_of (print_cmd_safe lenient ds) = []).
-Proof. intros. repeat split; apply error_no_output. Qed.
+Proof. exact error_empty_stdout_all. Qed.
 Print Assumptions C14_error_empty_stdout.
 
 (* ---------------------------------------------------------------- the hypotheses are satisfiable *)
@@ -229,7 +227,7 @@ Example C14_guards_satisfiable :
 Proof. exact witness_ok. Qed.
 
 Example C14_reach_satisfiable : reach fs_mutual [[97]] [[115]; [98]].
-Proof. exact (reach_inc fs_mutual [[97]] [[97]] _ [115; 47; 98] (reach_root _ _) eq_refl (or_introl eq_refl)). Qed.
+Proof. exact mutual_reach. Qed.
 
 Example C14_clean_run_examples :
   clean_run_b true ClOK false false = true /\ clean_run_b true ClERR true true = true /\
@@ -237,4 +235,4 @@ Example C14_clean_run_examples :
   clean_run_b false ClERR false true = true /\
   clean_run_b true ClPANIC true true = false /\ clean_run_b true ClHANG true false = false /\
   clean_run_b true ClOOM true true = false /\ clean_run_b false ClEXIT true true = false.
-Proof. repeat split. Qed.
+Proof. exact clean_run_examples. Qed.
